@@ -11,7 +11,7 @@
     original message itself or not; returns nil / an error / panics).  Each delivery is handled
     by its own closure invocation that shares nothing but the configuration with the others,
     so the statements are per delivery. *)
-From WM Require Import Base.Prelude Message.Model Handler.RouterHandle Handler.RouterProofs CQRS.Model CQRS.Proofs.
+From WM Require Import Base.Prelude Message.Model Handler.RouterHandle Handler.RouterProofs CQRS.Model CQRS.Proofs CQRS.Reg CQRS.RegProofs CQRS.Calls CQRS.CallsProofs.
 
 Section C15.
   Context {V T P : Type}.
@@ -245,6 +245,138 @@ Section C15.
   Proof. exact (add_handlers_nodup gen_name zero). Qed.
 End C15.
 
+(** ** registration (round "proofs"): which router handlers a processor puts on the Router.
+    Model: CQRS/Reg.v ([reg_step] = AddHandlers / AddHandler / AddHandlersToRouter of the command
+    and event processors, config-constructed or deprecated, and AddHandlersGroup), for every
+    script of calls, every handler list and every behaviour of GenerateSubscribeTopic /
+    SubscriberConstructor / NewCommand (pointer or not). *)
+Section C15_Reg.
+  Context {V T : Type}.
+  Variable gen_name : V -> N.
+  Variable zero : T -> V.
+
+  (** every call leaves exactly the Router handlers, p.handlers, callback sequence and result
+      the batch-level specification prescribes ([spec_step]: the longest registrable prefix
+      [good_prefix], its router handlers [mk_handlers], the first failure [batch_result]) *)
+  Theorem C15_registration_spec : forall evt depr (s : rstate T) (c : rcall T),
+    reg_step gen_name zero evt depr s c = spec_step gen_name zero evt depr s c.
+  Proof. exact (reg_step_spec gen_name zero). Qed.
+
+  Theorem C15_registration_run_spec : forall evt depr (cs : list (rcall T)) (s : rstate T),
+    reg_run gen_name zero evt depr s cs = spec_run gen_name zero evt depr s cs.
+  Proof. exact (reg_run_spec gen_name zero). Qed.
+
+  (** AddHandlers / AddHandler / AddHandlersToRouter in detail: Router, p.handlers, result,
+      callback sequence, subscribers constructed *)
+  Theorem C15_registration_call_spec : forall evt depr (s : rstate T) (o : hop T),
+    let '(s', e, r) := hreg_step gen_name zero evt depr s o in
+    (r_router s', r_handlers s', r) = hreg_expected gen_name zero evt depr s o
+    /\ e = hreg_expected_events gen_name zero evt depr s o
+    /\ r_groups s' = r_groups s
+    /\ r_nsub s' = (r_nsub s + N.of_nat (length (r_router s') - length (r_router s)) + panic_extra r)%N.
+  Proof. exact (hreg_step_spec gen_name zero). Qed.
+
+  (** what gets registered is a prefix of the batch; the call returns nil iff it is the whole batch *)
+  Theorem C15_registration_prefix : forall evt (xs : list (rspec T)) taken,
+    exists post, xs = good_prefix evt taken xs ++ post.
+  Proof. exact (good_prefix_is_prefix). Qed.
+  Theorem C15_registration_ok_iff_all : forall evt (xs : list (rspec T)) taken,
+    batch_result evt taken xs = ROk <-> good_prefix evt taken xs = xs.
+  Proof. exact (batch_ok_iff). Qed.
+
+  (** whoever is registered returned a pointer, got a topic and a subscriber, and carries a
+      router-handler name different from all earlier ones *)
+  Theorem C15_registered_only_registrable : forall evt (xs : list (rspec T)) taken pre x post,
+    good_prefix evt taken xs = pre ++ x :: post ->
+    rs_ptr x = true /\ rs_sub x = true /\ (exists t, rs_topic x = Some t)
+    /\ existsb (N.eqb (rs_hname x)) (taken ++ map rs_hname pre) = false.
+  Proof. exact (good_prefix_sound). Qed.
+
+  (** one router handler per registered cqrs handler, in order, named HandlerName(), subscribed
+      to the topic generated for (its command/event name, the handler), each on its own fresh
+      subscriber (consecutive SubscriberConstructor results) *)
+  Theorem C15_registered_handlers_wellformed : forall evt (xs : list (rspec T)) taken n,
+    let good := good_prefix evt taken xs in
+    Forall2 (fun x rh => rh_from x rh = true) good (mk_handlers n good)
+    /\ map rh_sub (mk_handlers n good) = map (fun i => (n + N.of_nat i)%N) (seq 1 (length good)).
+  Proof. exact (mk_handlers_spec). Qed.
+
+  (** router-handler names stay pairwise different under every script of calls *)
+  Theorem C15_router_names_distinct : forall evt depr (cs : list (rcall T)) (s : rstate T),
+    nodupb (taken_names s) = true ->
+    nodupb (taken_names (fst (reg_run gen_name zero evt depr s cs))) = true.
+  Proof. exact (reg_run_names_nodup gen_name zero). Qed.
+
+  (** a command batch with two handlers of one command name is rejected before anything happens *)
+  Theorem C15_registration_duplicate_batch_rejected : forall depr (s : rstate T) xs n,
+    first_dup [] (map (rs_name gen_name zero) xs) = Some n ->
+    hreg_step gen_name zero false depr s (OAddHandlers xs) = (s, [], RDup n).
+  Proof. exact (dup_batch_rejected gen_name zero). Qed.
+
+  (** deprecated processors only collect handlers; AddHandlersToRouter registers them as one
+      batch and is refused on a config-constructed processor *)
+  Theorem C15_registration_deprecated_defers : forall evt (s : rstate T) xs x,
+    (evt = true \/ first_dup [] (map (rs_name gen_name zero) xs) = None) ->
+    hreg_step gen_name zero evt true s (OAddHandlers xs) = (push_handlers s xs, [], ROk)
+    /\ hreg_step gen_name zero evt true s (OAddHandler x) = (push_handlers s [x], [], ROk)
+    /\ hreg_step gen_name zero evt true s OToRouter = add_many gen_name zero evt false s (r_handlers s)
+    /\ hreg_step gen_name zero evt false s OToRouter = (s, [], RNotDeprecated).
+  Proof. exact (deprecated_defers gen_name zero). Qed.
+
+  (** AddHandlersGroup: one router handler named after the group for all its handlers; a refused
+      group changes nothing, and an empty / existing / non-pointer group calls no callback *)
+  Theorem C15_registration_group_spec : forall (s : rstate T) g (xs : list (rspec T)) topic sub,
+    let '(s', e, r) := greg_step s g xs topic sub in
+    (r = ROk -> exists t, topic = Some t /\ xs <> [] /\ existsb (N.eqb g) (r_groups s) = false
+                /\ r_router s' = r_router s ++ [RH g t (N.succ (r_nsub s)) (map (fun x => rs_id x) xs)]
+                /\ r_groups s' = r_groups s ++ [g]
+                /\ e = [RegTopic g (N.of_nat (length xs)); RegSub g (N.of_nat (length xs)) 0; RegAdd g t (N.succ (r_nsub s))])
+    /\ (r <> ROk -> r_router s' = r_router s /\ r_groups s' = r_groups s /\ r_handlers s' = r_handlers s)
+    /\ (r = RNoHandlers \/ r = RGroupExists \/ r = RValidateErr -> e = [] /\ s' = s).
+  Proof. exact (group_spec). Qed.
+
+  (** the model passes the registration acceptor that judges the implementation *)
+  Theorem C15_registration_model_accepted : forall evt depr (cs : list (rcall T)),
+    let '(s, obs) := reg_run gen_name zero evt depr (rinit (T:=T)) cs in
+    reg_monitor gen_name zero evt depr cs obs (r_router s) (map (fun x => rs_id x) (r_handlers s)) = true.
+  Proof. exact (reg_monitor_accepts gen_name zero). Qed.
+End C15_Reg.
+
+(** ** the marshaler call discipline (round "proofs"; model: CQRS/Calls.v) *)
+Section C15_Calls.
+  Context {V T P : Type}.
+  Variable gen_name : V -> N.
+  Variable enc : V -> option P.
+  Variable dec : P -> T -> option V.
+  Variable zero : T -> V.
+
+  (** every delivery, every processor kind, every handler list / flags / OnHandle mode / handler
+      behaviour: NameFromMessage first and before every Unmarshal (the group closure calls it a
+      second time only to build its "no handler found" error); Unmarshal only into a
+      brand-new object of a type whose name equals the message's name; Handle only on an object
+      that was decoded successfully (each at most once); nothing after a failed Unmarshal; the
+      processors never call Marshal or Name on behalf of a message *)
+  Theorem C15_marshaler_calls : forall cfg (msg : wmsg P) (d : @delivery T),
+    mcalls_ok (V:=V) (name_from msg) (proc_mcalls gen_name dec zero cfg msg d) = true.
+  Proof. exact (proc_mcalls_ok gen_name dec zero). Qed.
+
+  (** the call-level view and the event-level model dispatch to the same handlers *)
+  Theorem C15_marshaler_calls_agree_with_dispatch : forall cfg (msg : wmsg P) (d : @delivery T),
+    mhandles (proc_mcalls gen_name dec zero cfg msg d)
+    = map fst (calls (snd (fst (process gen_name dec zero cfg msg d)))).
+  Proof. exact (proc_mhandles gen_name dec zero). Qed.
+
+  (** a Send / Publish calls Marshal exactly once, first, on the value sent *)
+  Theorem C15_bus_marshals_once : forall v : V,
+    length (filter (fun e => match e with MMarshal _ => true | _ => false end) (bus_mcalls enc v)) = 1
+    /\ exists rest, bus_mcalls enc v = MMarshal v :: rest.
+  Proof. exact (bus_one_marshal enc). Qed.
+
+  Theorem C15_bus_marshaler_calls_accepted : forall (eqbV : V -> V -> bool), (forall v, eqbV v v = true) ->
+    forall v, bus_mcalls_ok enc eqbV v (bus_mcalls enc v) = true.
+  Proof. exact (bus_mcalls_accepts enc). Qed.
+End C15_Calls.
+
 Print Assumptions C15_bus_publishes_at_most_once.
 Print Assumptions C15_bus_publishes_once.
 Print Assumptions C15_bus_message_carries_name_and_payload.
@@ -269,6 +401,24 @@ Print Assumptions C15_value_equal.
 Print Assumptions C15_model_accepted.
 Print Assumptions C15_bus_model_accepted.
 Print Assumptions C15_add_handlers_rejects_duplicates.
+
+Print Assumptions C15_registration_spec.
+Print Assumptions C15_registration_run_spec.
+Print Assumptions C15_registration_call_spec.
+Print Assumptions C15_registration_prefix.
+Print Assumptions C15_registration_ok_iff_all.
+Print Assumptions C15_registered_only_registrable.
+Print Assumptions C15_registered_handlers_wellformed.
+Print Assumptions C15_router_names_distinct.
+Print Assumptions C15_registration_duplicate_batch_rejected.
+Print Assumptions C15_registration_deprecated_defers.
+Print Assumptions C15_registration_group_spec.
+Print Assumptions C15_registration_model_accepted.
+
+Print Assumptions C15_marshaler_calls.
+Print Assumptions C15_marshaler_calls_agree_with_dispatch.
+Print Assumptions C15_bus_marshals_once.
+Print Assumptions C15_bus_marshaler_calls_accepted.
 
 (** ** non-vacuity: concrete instances (values = (type, content), identity codec on the content,
     the name of a value is its type number) *)
